@@ -2,6 +2,8 @@
 # drill.sh <patch.diff | rev:<commit>> <check id> [tier]   — run a check against a scratch copy of /repo with a change applied
 set -e
 CHANGE="$1"; CHECK="$2"; TIER="${3:-quick}"
+HERE="$(cd "$(dirname "$0")/.." && pwd)"
+case "$CHANGE" in rev:*|/*) ;; *) CHANGE="$(pwd)/$CHANGE";; esac
 D=$(mktemp -d /tmp/drill_XXXXXX)
 trap 'rm -rf "$D"' EXIT
 git -C /repo archive HEAD | tar -x -C "$D"
@@ -11,7 +13,7 @@ else
   (cd "$D" && patch -p1 -s --binary < "$CHANGE")
 fi
 if [ -n "$DRILL_TESTS" ]; then (cd "$D" && env -u NSL_VERIF /venv/bin/python -m pytest -q -p no:cacheprovider -x 2>&1 | tail -2); fi
-cd /verif
+cd "$HERE"
 set +e
 NSL_VERIF_EVIDENCE_DIR="$D/_evidence" NSL_VERIF_REPO="$D" /venv/bin/python run.py "$CHECK" --tier "$TIER" 2>&1 | tail -${DRILL_TAIL:-8}
 echo "exit=${PIPESTATUS[0]}"
